@@ -12,16 +12,16 @@ import (
 type T = node.Type
 
 // Constructors (shapes exactly as the parser builds them).
-func I(i int) T            { return node.Int(i) }
-func F(f float64) T        { return node.Float(f) }
-func B(b bool) T           { return node.Bool(b) }
-func S(s string) T         { return node.String(s) }
-func N(s string) T         { return node.Name(s) }
-func L(e ...T) T           { return node.List{Elems: append([]T{}, e...)} }
+func I(i int) T               { return node.Int(i) }
+func F(f float64) T           { return node.Float(f) }
+func B(b bool) T              { return node.Bool(b) }
+func S(s string) T            { return node.String(s) }
+func N(s string) T            { return node.Name(s) }
+func L(e ...T) T              { return node.List{Elems: append([]T{}, e...)} }
 func Bin(op string, l, r T) T { return node.BinOp{Op: op, Left: l, Right: r} }
-func Un(op string, x T) T  { return node.UnOp{Op: op, Target: x} }
-func Ix(a, i T) T          { return node.IndexAt{Ary: a, At: i} }
-func Ix2(a, i, j T) T      { return node.IndexFromTo{Ary: a, From: i, To: j} }
+func Un(op string, x T) T     { return node.UnOp{Op: op, Target: x} }
+func Ix(a, i T) T             { return node.IndexAt{Ary: a, At: i} }
+func Ix2(a, i, j T) T         { return node.IndexFromTo{Ary: a, From: i, To: j} }
 func Call(f string, args ...T) T {
 	return node.Call{Name: node.Name(f), Arguments: node.List{Elems: append([]T{}, args...)}}
 }
@@ -32,13 +32,13 @@ func Fn(params []string, body T) T {
 	}
 	return node.Function{Parameters: node.List{Elems: ps}, Body: body}
 }
-func Asg(v string, e T) T    { return node.Assign{VarRef: node.Name(v), Value: e} }
-func If(c, t T) T            { return node.If{Condition: c, TrueCase: t} }
-func IfE(c, t, e T) T        { return node.IfElse{Condition: c, TrueCase: t, FalseCase: e} }
-func Wh(c, b T) T            { return node.While{Condition: c, Body: b} }
-func Ret(e T) T              { return node.Return{Target: e} }
-func Yld(e T) T              { return node.Yield{Target: e} }
-func Blk(s ...T) T           { return ast.Blk(s...) }
+func Asg(v string, e T) T { return node.Assign{VarRef: node.Name(v), Value: e} }
+func If(c, t T) T         { return node.If{Condition: c, TrueCase: t} }
+func IfE(c, t, e T) T     { return node.IfElse{Condition: c, TrueCase: t, FalseCase: e} }
+func Wh(c, b T) T         { return node.While{Condition: c, Body: b} }
+func Ret(e T) T           { return node.Return{Target: e} }
+func Yld(e T) T           { return node.Yield{Target: e} }
+func Blk(s ...T) T        { return ast.Blk(s...) }
 func For(v string, it, body T) T {
 	return node.For{VarRefs: node.List{Elems: []T{node.Name(v)}}, Iterators: node.List{Elems: []T{it}}, Body: body}
 }
